@@ -95,6 +95,8 @@ func kindOfTokens(t []string) string {
 		return "auction"
 	case has("bid") || has("bidding"):
 		return "bid"
+	case has("script"):
+		return "script"
 	case has("gauge"):
 		return "gauge"
 	case has("epoch"):
@@ -354,6 +356,8 @@ func ctorParamKinds(f *ssa.Function) []string {
 	return out
 }
 
+var idKindAllFns = map[string]bool{"R17.7": true}
+
 var idKindExceptions = map[string]string{
 	"x/lend/keeper.Keeper.CreteNewBorrow -> GetLendPair arg 1 (id)": "v1 liquidation stores the lend pair id of a lend-type locked vault in LockedVault.ExtendedPairId (documented reuse of the field)",
 	"x/lend/keeper.Keeper.CreteNewBorrow -> GetBorrow arg 1 (ID)":   "v1 liquidation stores the borrow id of a lend-type locked vault in LockedVault.OriginalVaultId (documented reuse of the field)",
@@ -370,7 +374,12 @@ func idKindRuleX(p *Prog, r *Report, rule string, modules, calleeMods map[string
 	r.Rule(rule, "identifier-kind agreement at calls (no borrow id where a lend id is expected, no swapped app/pair ids)", floor)
 	ops := p.operationalFns()
 	for _, fn := range p.Funcs {
-		if !ops[fn] || p.isAuxFn(fn) {
+		// the oracle configuration is driven by governance proposals, which are not among the
+		// operational roots: for that scope every keeper function of the modules is looked at
+		if !ops[fn] && !(idKindAllFns[rule] && modules[moduleOf(fn)] && strings.HasSuffix(fnPkgPath(fn), "/keeper")) {
+			continue
+		}
+		if p.isAuxFn(fn) {
 			continue
 		}
 		callerIn := modules[moduleOf(fn)]
